@@ -1323,6 +1323,619 @@ def viewer_observe(stmts):
             "ranges": ranges, "read": read}, ids, views
 
 
+# =====================================================================================================
+# GIRBlockViewer as objects: histories of constructions and append_other, every public method probed
+# =====================================================================================================
+
+VBASE = [
+    [("d", 1), ("block_start", 2), ("d", 3), ("block_start", 4), ("x", 5), ("block_end", 4), ("block_end", 2), ("d", 6),
+     ("block_start", 7), ("block_end", 7)],
+    [("block_start", 11), ("d", 12), ("block_end", 11), ("block_start", 13), ("x", 14), ("block_end", 13)],
+    [("d", 21)],
+    [],
+]
+VOPCODE = {"block_start": 0, "block_end": 1, "d": 2, "x": 3}
+VCODES = [0, 1, 2, 3, 9]
+VCODE_NAME = {0: "block_start", 1: "block_end", 2: "d", 3: "x", 9: "zz"}
+VIDS = sorted({i for b in VBASE for _, i in b}) + [99, None]
+VKS = list(range(-3, 15))
+
+
+def v_block_positions(stmts, bid):
+    """scan: the two positions of a block id (start, end) or None"""
+    if bid is None:
+        return None
+    pos = [p for p, (_, i) in enumerate(stmts) if i == bid]
+    if len(pos) == 2 and stmts[pos[0]][0] == "block_start" and stmts[pos[1]][0] == "block_end":
+        return pos
+    return None
+
+
+def v_ctor_error(stmts):
+    """scan-based verdict of the constructor on a list of (operation, id)"""
+    stack, seen = [], {}
+    for pos, (o, i) in enumerate(stmts):
+        if i in seen and not (stmts[seen[i]][0] == "block_start" and o == "block_end"):
+            return "dup"
+        seen.setdefault(i, pos)
+        if o == "block_start":
+            stack.append(i)
+        elif o == "block_end":
+            if not stack:
+                return "noStart"
+            if stack.pop() != i:
+                return "mismatch"
+    return "unclosed" if stack else None
+
+
+class OViewer:
+    """a viewer by scan: a list of statements (dicts uid/op/id/label) and a window (lo, hi)"""
+    def __init__(self, coll, lo, hi):
+        self.coll, self.lo, self.hi = coll, lo, hi
+
+    def visible(self):
+        return self.coll[max(self.lo + 1, 0):max(self.hi, 0)]
+
+    def pairs(self):
+        return [(s["op"], s["id"]) for s in self.coll]
+
+    def first(self, i):
+        for p, s in enumerate(self.coll):
+            if s["id"] == i:
+                return p
+        return None
+
+    def inr(self, k):
+        return self.lo < k < self.hi
+
+    def battery(self, universe):
+        vis = self.visible()
+        n = len(vis)
+        P = self.pairs()
+        def block(i):
+            return v_block_positions(P, i)
+        def getitem(k):
+            j = k + n if k < 0 else k
+            return "IndexError" if j < 0 or j >= n else vis[j]["uid"]
+        def boundary(ids):
+            m = -1
+            for i in ids:
+                b = block(i)
+                if b and b[1] > m:
+                    m = b[1]
+            return m
+        def by_id(i):
+            f = self.first(i)
+            return self.coll[f]["uid"] if f is not None and self.inr(f) else None
+        def read(i):
+            b = block(i)
+            return [b[0], b[1]] if b and self.lo < b[0] and b[1] < self.hi else None
+        return [
+            n, [s["uid"] for s in vis], [self.lo, self.hi], [n, self.lo + 1, self.hi],
+            list(range(self.lo + 1, self.hi)),
+            [getitem(k) for k in VKS],
+            [s["uid"] for s in vis[1:3]], [s["uid"] for s in vis[-2:99]],
+            [by_id(i) == u for u, i in universe],
+            [self.inr(k) for k in VKS],
+            [i is not None and self.first(i) is not None and self.inr(self.first(i)) for i in VIDS],
+            sorted({s["id"] for s in vis}),
+            [read(i) for i in VIDS],
+            [[s["id"] for s in self.coll[block(i)[0] + 1:block(i)[1]]] if block(i) else [] for i in VIDS],
+            [by_id(i) if i is not None else None for i in VIDS],
+            [self.coll[k]["uid"] if self.inr(k) else None for k in VKS],
+            [[s["uid"] for s in vis if VOPCODE[s["op"]] == c] for c in VCODES],
+            [[s["uid"] for s in vis if i is not None and s["id"] == i] for i in VIDS],
+            [[s["uid"] for s in vis if VOPCODE[s["op"]] == c] for c in VCODES],
+            [s["uid"] for s in vis], [],
+            [boundary([i]) for i in VIDS], boundary(VIDS), boundary([]),
+        ]
+
+
+def real_battery(v, uid_of, universe_rows):
+    """the same battery through the public methods of the real GIRBlockViewer"""
+    def U(s):
+        return None if s is None else uid_of.get(id(s), -1)
+    def safe(f):
+        try:
+            return f()
+        except IndexError:
+            return "IndexError"
+        except Exception as e:                     # any other exception is an answer that will not match
+            return "EXC:" + type(e).__name__
+    r = v.get_range()
+
+    def rng():
+        # string renderings: header line of the viewer, one line per visible statement, BlockRange
+        text = repr(v).split("\n")
+        ok = (text[0] == f"<GIRBlockViewer range=BlockRange({r.start}, {r.end}) size={len(v)}>" and len(text) == len(v) + 2
+              and repr(r) == f"BlockRange({r.start}, {r.end})")
+        return [r.start, r.end] if ok else "repr-differs"
+    return [
+        safe(lambda: len(v)), safe(lambda: [U(s) for s in v]), safe(rng),
+        safe(lambda: [r.size(), r.get_real_start_index(), r.get_end_index()]),
+        safe(lambda: list(r.iter_indices())),
+        [safe(lambda k=k: U(v[k])) for k in VKS],
+        safe(lambda: [U(s) for s in v[1:3]]), safe(lambda: [U(s) for s in v[-2:99]]),
+        [safe(lambda row=row: row in v) for row in universe_rows],
+        [safe(lambda k=k: v.contains_index_pos(k) and r.contains_index(k)) for k in VKS],
+        [safe(lambda i=i: v.contains_stmt_id(i)) for i in VIDS],
+        safe(lambda: [int(x) for x in v.get_all_stmt_ids()]),
+        [safe(lambda i=i: (lambda b: None if b is None else
+                           ([b.get_range().start, b.get_range().end] if r.contains_range(b.get_range()) else "not-contained"))
+              (v.read_block(i))) for i in VIDS],
+        [safe(lambda i=i: [int(x) for x in v.get_block_stmt_ids(i)]) for i in VIDS],
+        [safe(lambda i=i: U(v.get_stmt_by_id(i))) for i in VIDS],
+        [safe(lambda k=k: U(v.get_stmt_by_pos(k))) for k in VKS],
+        [safe(lambda c=c: [U(s) for s in v.query_operation(VCODE_NAME[c])]) for c in VCODES],
+        [safe(lambda i=i: [U(s) for s in v.query_field("stmt_id", i)]) for i in VIDS],
+        [safe(lambda c=c: [U(s) for s in v.query_field("operation", VCODE_NAME[c])]) for c in VCODES],
+        safe(lambda: [U(s) for s in v.query_field("no_such_field", None)]),
+        safe(lambda: [U(s) for s in v.query_field("no_such_field", "v")]),
+        [safe(lambda i=i: int(v.boundary_of_multi_blocks([i]))) for i in VIDS],
+        safe(lambda: int(v.boundary_of_multi_blocks(list(VIDS)))), safe(lambda: int(v.boundary_of_multi_blocks([]))),
+    ]
+
+
+def row_helpers_ok(row, d):
+    """the Row helpers the block queries hand out: attribute access, to_dict, get_index, raw_data, len, in, iter,
+    copy/clone, ==, hash, get_whole_str"""
+    want = {"operation": d["op"], "stmt_id": d["id"], "parent_stmt_id": 0}
+    try:
+        got = {k: canon(x) for k, x in row.to_dict().items()}
+        c1, c2 = row.copy(), row.clone()
+        return (got == want and row.operation == d["op"] and int(row.stmt_id) == d["id"] and int(row.get_index()) == d["label"]
+                and [canon(x) for x in row.raw_data()] == [d["op"], d["id"], 0] and len(row) == 3
+                and "stmt_id" in row and "nope" not in row and [canon(x) for x in row] == [d["op"], d["id"], 0]
+                and row.no_such_attr is None and c1 == row and c2 == row and hash(c1) == hash(row) and c1 is not row
+                and row != 5 and row.get_whole_str() == str(row.to_dict()) and repr(row).startswith("Row("))
+    except Exception:
+        return False
+
+
+def viewer_world(ops):
+    """run one viewer history on REAL and ORACLE; -> (resolved ops for the model, real outs, oracle outs, universe)"""
+    from lian.util.data_model import DataModel
+    from lian.util.gir_block import GIRBlockViewer
+    rslots, oslots = [], []
+    uid_of, rows, universe = {}, [], []           # id(Row) -> uid ; Row objects kept alive ; [(uid, stmt id)]
+    res, routs, oouts = [], [], []
+    dms = {}
+
+    def dm_of(k):
+        if k not in dms:
+            dms[k] = DataModel([{"operation": o, "stmt_id": i, "parent_stmt_id": 0} for o, i in VBASE[k]])
+        return dms[k]
+
+    for op in ops:
+        k = op[0]
+        if k == "probe":
+            res.append(["probe"])
+            routs.append(["probe", [real_battery(v, uid_of, rows) for v in rslots]])
+            oouts.append(["probe", [v.battery(universe) for v in oslots]])
+            continue
+        if k in ("newroot", "newlist", "newblock"):
+            base = VBASE[op[1]]
+            if k == "newblock":
+                b = v_block_positions(base, op[2])
+                picked = [] if b is None else list(range(b[0] + 1, b[1]))
+                if op[2] is not None and b is None:
+                    raise RuntimeError("generator: newblock needs a block id or None")
+            else:
+                picked = list(range(len(base)))
+            desc = [{"uid": len(universe) + n, "op": base[p][0], "id": base[p][1], "label": p} for n, p in enumerate(picked)]
+            res.append(["new", [[VKIND.get(d["op"], "o"), d["id"], d["uid"], max(VOPCODE[d["op"]] - 2, 0), d["label"]]
+                                for d in desc]])
+            err = v_ctor_error([(d["op"], d["id"]) for d in desc])
+            try:
+                if k == "newroot":
+                    rv = GIRBlockViewer(dm_of(op[1]))
+                elif k == "newlist":
+                    rv = GIRBlockViewer(list(dm_of(op[1])))
+                else:
+                    rv = GIRBlockViewer(dm_of(op[1]).read_block(op[2]))
+                rout = ["ok"]
+                coll = rv._stmt_collection
+                if len(coll) != len(desc) or not all(row_helpers_ok(r, d) for r, d in zip(coll, desc)):
+                    rout = ["ok", "rows-differ", [(str(r.operation), canon(r.stmt_id), canon(r.get_index())) for r in coll]]
+                for r, d in zip(coll, desc):
+                    uid_of[id(r)] = d["uid"]
+                    rows.append(r)
+                rslots.append(rv)
+            except RuntimeError as e:
+                rout = ["err", VERR.get(str(e), "other:" + str(e))]
+            universe += [(d["uid"], d["id"]) for d in desc] if err is None else []
+            if err is None:
+                oslots.append(OViewer(desc, -1, len(desc)))
+                oouts.append(["ok"])
+            else:
+                oouts.append(["err", err])
+            routs.append(rout)
+            continue
+        res.append(list(op))
+        if k == "empty":
+            rslots.append(GIRBlockViewer())
+            oslots.append(OViewer([], -1, 0))
+            routs.append(["ok"]); oouts.append(["ok"])
+        elif k == "copy":
+            if op[1] >= len(oslots):
+                routs.append(["badslot"]); oouts.append(["badslot"]); continue
+            rslots.append(GIRBlockViewer(rslots[op[1]]))
+            o = oslots[op[1]]
+            oslots.append(OViewer([], -1, 0) if not o.visible() else OViewer(o.coll, o.lo, o.hi))
+            routs.append(["ok"]); oouts.append(["ok"])
+        elif k == "read":
+            if op[1] >= len(oslots):
+                routs.append(["badslot"]); oouts.append(["badslot"]); continue
+            rb = rslots[op[1]].read_block(op[2])
+            o = oslots[op[1]]
+            b = v_block_positions(o.pairs(), op[2])
+            ob = OViewer(o.coll, b[0], b[1]) if b and o.lo < b[0] and b[1] < o.hi else None
+            if rb is not None:
+                rslots.append(rb)
+            if ob is not None:
+                oslots.append(ob)
+            routs.append(["ok"] if rb is not None else ["none"])
+            oouts.append(["ok"] if ob is not None else ["none"])
+            if (rb is None) != (ob is None):
+                break                                   # slots are out of step: stop here, the outs already differ
+        elif k == "append":
+            if op[1] >= len(oslots) or op[2] >= len(oslots):
+                routs.append(["badslot"]); oouts.append(["badslot"]); continue
+            try:
+                ret = rslots[op[1]].append_other(rslots[op[2]])
+                routs.append(["ok"] if ret is rslots[op[1]] else ["ok", "returned-another-object"])
+            except RuntimeError as e:
+                routs.append(["err", VERR.get(str(e), "other:" + str(e))])
+            a, b = oslots[op[1]], oslots[op[2]]
+            comb = a.visible() + b.visible()
+            err = v_ctor_error([(s["op"], s["id"]) for s in comb])
+            if err is None:                              # "a brand new viewer over the concatenation"
+                a.coll, a.lo, a.hi = comb, -1, len(comb)
+                oouts.append(["ok"])
+            else:                                        # refused: the receiver is what it was
+                oouts.append(["err", err])
+        else:
+            raise RuntimeError("viewer op " + str(op))
+    # `in` was asked for the Row objects that existed at the time; objects created later were not contained
+    for outs in (routs, oouts):
+        for o in outs:
+            if o[0] == "probe":
+                for b in o[1]:
+                    b[8] = b[8] + [False] * (len(universe) - len(b[8]))
+    return res, routs, oouts, universe
+
+
+def viewer_specs():
+    """how to obtain a viewer: list of ops relative to the current number of slots, result = last slot created"""
+    sp = []
+    for k in range(len(VBASE)):
+        sp.append(("root%d" % k, [["newroot", k]]))
+    sp.append(("list0", [["newlist", 0]]))
+    sp.append(("empty", [["empty"]]))
+    for bid in (2, 4, 7, None):
+        sp.append(("blockdm0_%s" % bid, [["newblock", 0, bid]]))
+    sp.append(("blockdm1_13", [["newblock", 1, 13]]))
+    for path in ([2], [4], [7], [2, 4]):
+        sp.append(("view0_%s" % path, [["newroot", 0]] + [["read", "prev", b] for b in path]))
+    for bid in (11, 13):
+        sp.append(("view1_%d" % bid, [["newroot", 1], ["read", "prev", bid]]))
+    sp.append(("copyroot0", [["newroot", 0], ["copy", "prev"]]))
+    sp.append(("copyview0_2", [["newroot", 0], ["read", "prev", 2], ["copy", "prev"]]))
+    sp.append(("copyview0_7", [["newroot", 0], ["read", "prev", 7], ["copy", "prev"]]))
+    return sp
+
+
+def v_instantiate(spec_ops, nslots):
+    """-> (ops, nslots afterwards); 'prev' = the slot created by the previous op of the spec"""
+    ops = []
+    for o in spec_ops:
+        o = [nslots - 1 if x == "prev" else x for x in o]
+        ops.append(o)
+        nslots += 1
+    return ops, nslots
+
+
+def viewer_histories(tier, rng):
+    specs = viewer_specs()
+    for name, so in specs:                                   # construction alone
+        ops, n = v_instantiate(so, 0)
+        yield ops + [["probe"]]
+    seconds = [None, [["empty"]], [["newroot", 2]], [["newroot", 1], ["read", "prev", 13]]]
+    for rn, rs in specs:
+        rops, n1 = v_instantiate(rs, 0)
+        r = n1 - 1
+        yield rops + [["append", r, r], ["probe"]]          # a viewer appended to itself
+        for on, os_ in specs:
+            oops, n2 = v_instantiate(os_, n1)
+            o = n2 - 1
+            variants = [(oops, o)]
+            # operand taken from the receiver's own root (shared statement collection) when both come from base 0
+            if rs[0] == ["newroot", 0] and os_[0] == ["newroot", 0] and len(os_) > 1:
+                shared, n3 = v_instantiate([x if i else None for i, x in enumerate(os_)][1:], n1)
+                shared = [[0 if (x == n1 - 1 and j == 0) else x for x in op_] for j, op_ in enumerate(shared)]
+                variants.append((shared, n3 - 1))
+            for vo, oslot in variants:
+                base = rops + vo + [["append", r, oslot], ["probe"]]
+                for sec in (seconds if tier == "thorough" or on in ("empty", "root3", "view0_[7]", "blockdm0_None", "root2")
+                            else seconds[:2]):
+                    if sec is None:
+                        yield base
+                    else:
+                        sops, n4 = v_instantiate(sec, max(n2, oslot + 1) if vo is oops else n3)
+                        yield base + sops + [["append", r, n4 - 1], ["probe"]]
+                # the operand as receiver of the receiver (order matters)
+    for _ in range(300 if tier == "quick" else 6000):
+        ops, n = [], 0
+        for _ in range(rng.randint(3, 9)):
+            c = rng.random()
+            if n == 0 or c < 0.25:
+                kind = rng.choice(["newroot", "newroot", "newlist", "newblock", "empty"])
+                if kind == "empty":
+                    ops.append(["empty"])
+                elif kind == "newblock":
+                    k = rng.choice([0, 0, 1])
+                    ops.append(["newblock", k, rng.choice([2, 4, 7, None] if k == 0 else [11, 13, None])])
+                else:
+                    ops.append([kind, rng.randrange(len(VBASE))])
+                n += 1
+            elif c < 0.5:
+                ops.append(["read", rng.randrange(n), rng.choice([2, 4, 7, 11, 13, 2, 4, 99, None])])
+                n += 1                                   # may not create a slot; later indices are then refused (badslot)
+            elif c < 0.6:
+                ops.append(["copy", rng.randrange(n)])
+                n += 1
+            else:
+                ops.append(["append", rng.randrange(n), rng.randrange(n)])
+                ops.append(["probe"])
+        yield ops + [["probe"]]
+
+
+def viewer_world_chunk(hs):
+    warnings.simplefilter("ignore")
+    so, se = sys.stdout, sys.stderr
+    dn = open(os.devnull, "w")
+    sys.stdout = sys.stderr = dn
+    rows = []
+    try:
+        for ops in hs:
+            rows.append((ops,) + viewer_world(ops))
+    finally:
+        sys.stdout, sys.stderr = so, se
+        dn.close()
+    st = {"n": len(rows), "ops": {}, "append_outcomes": {}, "probes": 0, "receiver_kinds": {}}
+    bad, breaks = [], []
+    models = None
+    if MODEL_OK:
+        reqs = [{"m": "blockworld", "atomic": VARIANT != "pinned", "ops": res, "ids": VIDS, "ks": VKS, "codes": VCODES,
+                 "universe": [list(u) for u in uni]} for _, res, _, _, uni in rows]
+        models = drv_ok(drv_batch(reqs))
+    for n, (ops, res, routs, oouts, uni) in enumerate(rows):
+        for op, out in zip(ops, routs):
+            st["ops"][op[0]] = st["ops"].get(op[0], 0) + 1
+            if op[0] == "append":
+                key = out[0] if out[0] != "err" else "err:" + out[1]
+                st["append_outcomes"][key] = st["append_outcomes"].get(key, 0) + 1
+            if op[0] == "probe":
+                st["probes"] += len(out[1])
+        if routs != oouts:
+            if len(bad) < 5:
+                bad.append((ops, routs, oouts))
+        elif models is not None and [list(x) if isinstance(x, list) else x for x in models[n]] != routs:
+            if len(breaks) < 5:
+                breaks.append((ops, routs, models[n]))
+    return st, bad, breaks
+
+
+def load_viewer_corpus():
+    d = os.path.join(common.VERIF, "corpus", "C16")
+    out = []
+    if os.path.isdir(d):
+        for f in sorted(os.listdir(d)):
+            if f.endswith(".json"):
+                j = json.load(open(os.path.join(d, f)))
+                if "viewer_ops" in j:
+                    out.append(j)
+    return out
+
+
+VQ = ["len", "iter", "get_range", "BlockRange size/start/end", "iter_indices", "getitem[k]", "getitem[1:3]", "getitem[-2:99]",
+      "row in viewer", "contains_index_pos", "contains_stmt_id", "get_all_stmt_ids", "read_block", "get_block_stmt_ids",
+      "get_stmt_by_id", "get_stmt_by_pos", "query_operation", "query_field stmt_id", "query_field operation",
+      "query_field unknown=None", "query_field unknown=v", "boundary_of_multi_blocks [id]", "boundary_of_multi_blocks all",
+      "boundary_of_multi_blocks []"]
+
+
+def viewer_world_diff(routs, oouts):
+    """readable list of the differing answers"""
+    out = []
+    for n, (r, o) in enumerate(zip(routs, oouts)):
+        if r == o:
+            continue
+        if r[0] == "probe" and o[0] == "probe":
+            for sl, (a, b) in enumerate(zip(r[1], o[1])):
+                for q, (x, y) in enumerate(zip(a, b)):
+                    if x != y:
+                        out.append({"after_op": n, "slot": sl, "query": VQ[q], "real": x, "scan": y})
+        else:
+            out.append({"op": n, "real": r, "scan": o})
+        if len(out) > 12:
+            break
+    return out
+
+
+def viewer_world_fails(ops):
+    _, routs, oouts, _ = quiet(viewer_world, ops)
+    return routs != oouts
+
+
+# =====================================================================================================
+# public helpers that are not operations of the Lean model: driven against the list-of-dicts oracle only
+# =====================================================================================================
+
+def helpers_case(ctor, mut, scratch):
+    """a table, optionally one mutation, then the remaining public DataModel / Row / Column helpers.
+    -> list of differences (empty = fine)"""
+    w = RealWorld(ctor, scratch)
+    t = _oracle_table(ctor)
+    if mut is not None:
+        try:
+            r, _ = w.exec(list(mut))
+        except Skip:
+            r = None
+        if r is not None:
+            try:
+                oracle_step(t, r)
+            except OErr:
+                pass
+    dm, diffs = w.cur, []
+    n, cols = len(t.rows), t.cols
+    want_rows = [t.row(i) for i in range(n)]
+
+    def chk(name, got, want):
+        if got != want:
+            diffs.append([name, got, want])
+
+    def rows_now():
+        return [row_json(r) for r in dm]
+    chk("is_available", bool(dm.is_available()), n > 0)
+    chk("get_schema", [str(c) for c in dm.get_schema()], cols)
+    chk("get_data is _data", dm.get_data() is dm._data, True)
+    chk("repr", f"length={n}," in repr(dm), True)
+    # the cache-maintenance entry points may be called at any time without changing an answer
+    dm.display(); dm.set_refresh_flag(); chk("after set_refresh_flag", rows_now(), want_rows)
+    dm.refresh_rows(); dm.refresh_schema(); chk("after refresh_rows/refresh_schema", rows_now(), want_rows)
+    chk("get_rows", [[canon(c) for c in r] for r in dm.get_rows()], [r[0] for r in want_rows])
+    for c in cols:
+        col = [r.get(c) for r in t.rows]
+        chk("getitem str " + c, [canon(x) for x in dm[c].tolist()], col)
+        chk("access_column " + c, [canon(x) for x in dm.access_column(c).tolist()], col)
+        chk("Column.is_empty " + c, (bool(dm[c].is_empty()), bool(dm[c].is_available())), (n == 0, n > 0))
+        chk("Column repr " + c, repr(dm[c]).startswith("Column(name:%s, data:" % c), True)
+        for v in (1, 2, "x"):
+            pos = [i for i, x in enumerate(col) if x is not None and x == v]
+            for how, arg in (("mask", dm[c] == v), ("set", set(pos))):
+                r = dm.slow_query_first(arg)
+                want = None if not pos else [want_rows[pos[0]][0], cols, pos[0]]
+                chk(f"slow_query_first {how} {c} {v!r}", row_json(r), want)
+    for i in range(n):
+        chk("getitem int", row_json(dm[i]), want_rows[i])
+        chk("slow_query_first int", row_json(dm.slow_query_first(i)), [want_rows[i][0], cols, i])
+        r = dm.access(i)
+        d = dict(zip(cols, want_rows[i][0]))
+        chk("Row.to_dict", {k: canon(v) for k, v in r.to_dict().items()}, d)
+        chk("Row len/in/iter", (len(r), all(c in r for c in cols), "no_such" in r, [canon(x) for x in r]),
+            (len(cols), True, False, want_rows[i][0]))
+        chk("Row attr", [canon(getattr(r, c)) for c in cols] + [r.no_such_attr], want_rows[i][0] + [None])
+        c1 = r.copy()
+        # Row.__eq__ uses np.array_equal: a row holding a float NaN (not a None) equals nothing, not even its copy
+        full = not any(isinstance(x, float) and x != x for x in r.raw_data())
+        chk("Row copy/eq/hash", (c1 == r, r.clone() == r, c1 is r, r == 5), (full, full, False, False))
+        chk("Row repr", repr(r).startswith("Row("), True)
+        chk("Row.get_whole_str", r.get_whole_str(), str(r.to_dict()))
+        try:
+            chk("Row hash", hash(c1) == hash(r), True)
+        except TypeError:
+            pass                                   # NaN-free rows only hash equal; unhashable cells are not ours
+    chk("getitem list", [row_json(r) for r in dm[[0, n]]], [want_rows[0] if n else None, None])
+    return diffs
+
+
+def helpers_inputs(tier, rng):
+    muts = [None, ["removeRows", "a", 1], ["modifyElement", 0, "a", 2, False], ["renameColumn", "a", "k"],
+            ["resetIndex", True], ["append", F(["a", "b"], [[1, "x"]])], ["modifyColumn", "c", "x"]]
+    for t in BASE_TABLES + EXTRA_TABLES:
+        for m in muts:
+            yield t, m
+    for _ in range(150 if tier == "quick" else 3000):
+        t = rand_table(rng)
+        m = rng.choice([None, None] + [o for o in (rand_op(rng) for _ in range(3)) if o[0] in MUT_KINDS and o[0] not in ("saveLoad", "appendOther")])
+        yield t, m
+
+
+def helpers_chunk(args):
+    items, scratch = args
+    warnings.simplefilter("ignore")
+    out = []
+    for ctor, mut in items:
+        try:
+            d = quiet(helpers_case, ctor, mut, scratch)
+        except CanonError:
+            raise
+        if d:
+            out.append((ctor, mut, d))
+    return len(items), out
+
+
+# what of the public surface of the two anchored modules the harness drives, and what it does not
+DRIVEN = {
+    "DataModel": {
+        "__init__": "constructors rows / dicts / DataFrame / DataModel(other) / empty", "clone": "", "set_refresh_flag": "",
+        "__getitem__": "dm[col], dm[i], dm[[i, j]]", "__getattr__": "getattr(dm, col)", "__iter__": "list(dm)",
+        "__len__": "len(dm)", "__repr__": "repr(dm)", "is_empty": "", "is_available": "", "refresh_schema": "",
+        "refresh_rows": "", "get_rows": "", "set_columns": "", "load": "", "save": "", "access": "", "access_column": "",
+        "slice": "", "append_data_model": "", "modify_row": "", "modify_column": "", "rename_column": "",
+        "modify_element": "", "slow_query": "", "slow_query_first": "", "query_index_column_value_indices": "",
+        "query_index_column_value": "", "query_index_column_value_first": "", "fillna": "", "reset_index": "",
+        "search_block_start_end_indics": "", "read_block": "", "read_block_with_block_stmts": "",
+        "boundary_of_multi_blocks": "", "display": "", "convert_to_dict_list": "", "get_schema": "", "get_data": "",
+        "remove_rows": ""},
+    "Row": {"__init__": "every Row handed out", "__copy__": "row.copy() / row.clone()", "__getattr__": "row.<column>",
+            "get_whole_str": "", "to_dict": "", "__repr__": "", "get_index": "", "__len__": "len(row)", "raw_data": "",
+            "__contains__": "col in row", "__iter__": "list(row)", "__eq__": "row == copy", "__hash__": "hash(row)"},
+    "Column": {"is_empty": "", "is_available": "", "isin": "", "__repr__": "repr(dm[col])"},
+    "BlockRange": {"__init__": "", "contains_index": "", "contains_range": "", "size": "", "__repr__": "repr(range)",
+                   "iter_indices": "", "get_real_start_index": "", "get_end_index": ""},
+    "GIRBlockViewer": {
+        "__init__": "from DataModel / list of Row / DataModel.read_block result / [] / nothing / another viewer / read_block",
+        "__len__": "len(v)", "__getitem__": "v[k] for negative, valid and out-of-range k; v[a:b]", "__iter__": "list(v)",
+        "__contains__": "row in v for every Row object of the history", "get_range": "", "contains_index_pos": "",
+        "contains_stmt_id": "", "get_all_stmt_ids": "", "read_block": "", "get_block_stmt_ids": "", "get_stmt_by_id": "",
+        "get_stmt_by_pos": "", "query_operation": "", "query_field": "", "append_other": "",
+        "boundary_of_multi_blocks": "", "__repr__": "repr(v): header and one line per visible statement"},
+}
+NOT_DRIVEN_WHY = {
+    "DataModel.unique_values_of_column": "set-valued, keeps float NaN objects that are not the np.nan singleton; unused in /repo/src",
+    "DataModel._convert_bool_list_to_index_list": "private helper of slow_query_first (reached through it)",
+    "DataModel._indexing_column": "private; reached through every index query",
+    "Row.__setattr__": "writes through the cached numpy row only (lost at the next refresh; read-only on single-dtype frames): "
+                       "documented quirk outside the model",
+    "Row.add_new_column": "same write-through quirk as Row.__setattr__",
+    "Column.bundle_search": "iterates numpy scalars (np.int64(0) counts as missing); unused in /repo/src",
+}
+
+
+def surface_coverage():
+    """public methods of data_model.py and gir_block.py (by ast) vs what this file really calls (by grep on itself)"""
+    import ast, re
+    me = open(os.path.abspath(__file__), encoding="utf-8").read()
+    me = me[:me.index("# what of the public surface")] + me[me.index("def surface_coverage"):]
+    surface = {}
+    for rel in ("util/data_model.py", "util/gir_block.py"):
+        tree = ast.parse(open(os.path.join(common.REPO, "src", "lian", rel), encoding="utf-8").read())
+        for cls in [n for n in tree.body if isinstance(n, ast.ClassDef)]:
+            for fn in [n for n in cls.body if isinstance(n, ast.FunctionDef)]:
+                surface[f"{cls.name}.{fn.name}"] = rel
+    driven, uncovered, stale = [], [], []
+    for name in sorted(surface):
+        cls, fn = name.split(".")
+        if cls.startswith("_"):
+            continue
+        if fn in DRIVEN.get(cls, {}):
+            # a claim must be backed by a call in this file (dunders are justified in the table itself)
+            if fn.startswith("__") or re.search(r"\.%s\(" % re.escape(fn), me):
+                driven.append(name)
+            else:
+                stale.append(name)
+        else:
+            uncovered.append({"method": name, "file": surface[name],
+                              "why": NOT_DRIVEN_WHY.get(name, "not driven (new or overlooked method)")})
+    for cls, fns in DRIVEN.items():
+        for fn in fns:
+            if f"{cls}.{fn}" not in surface:
+                stale.append(f"{cls}.{fn} (claimed, no longer in the source)")
+    return driven, uncovered, stale
+
+
 def viewer_inputs(tier, rng):
     ops = ["d", "block_start", "block_end"]
     n_exh = 5 if tier == "quick" else 6
@@ -1431,6 +2044,17 @@ def _run(ctx, proofs_ok, tier, scratch):
             abreaks += br
             if kn is not None and (aknown is None or len(kn[2]) < len(aknown[2])):
                 aknown = kn
+        vw_hist = [j["viewer_ops"] for j in load_viewer_corpus()] + list(viewer_histories(tier, ctx.rng))
+        vw_stats, vw_bad, vw_breaks = {}, [], []
+        for st, bad, br in pool.imap(viewer_world_chunk, [vw_hist[i:i + 150] for i in range(0, len(vw_hist), 150)]):
+            merge(vw_stats, st)
+            vw_bad += bad
+            vw_breaks += br
+        hp_items = list(helpers_inputs(tier, ctx.rng))
+        hp_n, hp_bad = 0, []
+        for n_, bad in pool.imap(helpers_chunk, [(hp_items[i:i + 40], scratch) for i in range(0, len(hp_items), 40)]):
+            hp_n += n_
+            hp_bad += bad
     n_exh = sum(v for k, v in stats.get("kinds", {}).items() if k not in ("corpus", "rand"))
     n_fail, n_break = len(failing), len(breaks)
     failing = [x for x in failing if x is not None]
@@ -1479,6 +2103,17 @@ def _run(ctx, proofs_ok, tier, scratch):
                                         "accepted_by_constructor": sum(1 for _, o, _ in v_obs if "err" not in o),
                                         "refused": sum(1 for _, o, _ in v_obs if "err" in o)}
     ctx.cov["phase_seconds"]["viewer"] = round(time.time() - t1, 1)
+    ctx.cov["viewer_object_family"] = {
+        "histories": vw_stats.get("n", 0), "ops": vw_stats.get("ops", {}), "append_outcomes": vw_stats.get("append_outcomes", {}),
+        "slot_batteries": vw_stats.get("probes", 0), "queries_per_battery": 24,
+        "differ_from_scan_oracle": len(vw_bad), "model": "LianVerif.BlockView.stepV (atomic append_other)",
+        "model_differences": len(vw_breaks)}
+    ctx.cov["helpers_family"] = {"cases": hp_n, "differ_from_oracle": len(hp_bad)}
+    drv_, unc_, stale_ = surface_coverage()
+    ctx.cov["driven_public_methods"] = len(drv_)
+    ctx.cov["uncovered"] = unc_
+    if stale_:
+        ctx.cov["stale_coverage_claims"] = stale_
     t1 = time.time()
     try:
         mon = mq.get(timeout=600)
@@ -1496,7 +2131,7 @@ def _run(ctx, proofs_ok, tier, scratch):
     ctx.assumptions.append("C16_shared_caches_partial covers two DataModel wrappers over one DataFrame only while neither "
                            "mutates after the sharing; that production code never does otherwise is monitored on one "
                            "end-to-end run (production_alias_monitor), not proved")
-    ctx.cov["evaluations"] = stats.get("n", 0) + v_n
+    ctx.cov["evaluations"] = stats.get("n", 0) + v_n + astats.get("n", 0) + vw_stats.get("n", 0) + hp_n
     ctx.cov["distinct_nontrivial"] = len(stats.get("nontrivial_keys", ()))
     ctx.cov["rule"] = (
         f"corpus ({n_corpus}) + exhaustive ({n_exh}): every history of length <=2 over {len(QUERIES)} query, "
@@ -1505,7 +2140,12 @@ def _run(ctx, proofs_ok, tier, scratch):
         f"{', every query-mutation-query triple over ' + str(len(WIDE_Q)) + ' queries and every other history of length 3 on the first table' if tier == 'thorough' else ''}; + {n_rand} random histories of "
         "length 4-12 over random tables (0-5 rows, 1-3 columns, duplicates, None, '' and mixed-kind columns, four "
         f"constructors) with derived tables entered; + {v_n} GIRBlockViewer inputs (all operation strings up to "
-        f"length {5 if tier == 'quick' else 6} with id perturbations + random nestings). non-trivial = distinct resolved "
+        f"length {5 if tier == 'quick' else 6} with id perturbations + random nestings) "
+        f"+ {vw_stats.get('n', 0)} GIRBlockViewer object histories (every pair receiver x operand of {len(viewer_specs())} ways to obtain a "
+        "viewer - root from a DataModel / list of Rows / DataModel.read_block result, block views, nested views, copies, empty "
+        "- joined by append_other, incl. self-append and operands sharing the receiver's collection, optional second append, random "
+        f"sequences; after every append a battery of 24 query groups on every live viewer) + {hp_n} helper cases. "
+        "non-trivial = distinct resolved "
         "history with a successful mutation followed by a query with a non-empty, non-error answer")
     ctx.cov["exhaustive"] = True
     ctx.cov["op_counts"] = dict(sorted(stats.get("ops", {}).items()))
@@ -1576,10 +2216,28 @@ def _run(ctx, proofs_ok, tier, scratch):
         ctx.violation({"what": "real DataModel disagrees with a scan of the current rows (list-of-dicts oracle)",
                        "ctor": ctor, "ops": ops, "resolved_ops": res, "first_difference_at_op": i,
                        "real": real, "oracle": orc, "failing_histories_in_run": n_fail})
+    if vw_bad:
+        ops_, r_, o_ = min(vw_bad, key=lambda x: len(x[0]))
+        ops_ = common.shrink_list(ops_, lambda c: len(c) > 0 and viewer_world_fails(c))
+        _, r_, o_, _ = quiet(viewer_world, ops_)
+        ctx.violation({"what": "GIRBlockViewer objects: an answer of a public method differs from a scan of the statements the "
+                               "viewer should show (construction / read_block / append_other history)",
+                       "viewer_ops": ops_, "differences": viewer_world_diff(r_, o_), "failing_histories_in_run": len(vw_bad)})
+    if hp_bad:
+        c_, m_, d_ = hp_bad[0]
+        ctx.violation({"what": "a public DataModel / Row / Column helper disagrees with the list-of-dicts oracle",
+                       "helpers": True, "ctor": c_, "mutation": m_, "differences": d_[:5], "failing_cases_in_run": len(hp_bad)})
+    if stale_:
+        ctx.violation({"what": "the harness claims to drive public methods that it does not call (or that no longer exist)",
+                       "stale_coverage_claims": stale_}, no_input=True)
     if v_diffs:
         stmts, d = min(v_diffs, key=lambda x: len(x[0]))
         ctx.violation({"what": "GIRBlockViewer / DataModel.read_block disagree with a scan of the statement rows",
                        "viewer_stmts": stmts, "differences": d, "failing_inputs_in_run": len(v_diffs)})
+    if not breaks and vw_breaks:
+        ops_, r_, m_ = min(vw_breaks, key=lambda x: len(x[0]))
+        breaks = [(["viewer-objects"], ops_, [None, r_], [None, m_])]
+        n_break = len(vw_breaks)
     if not breaks and v_breaks:
         st_, ob_, m_ = min(v_breaks, key=lambda x: len(x[0]))
         breaks = [(["viewer"], st_, [None, [ob_]], [None, [m_]])]
@@ -1588,7 +2246,7 @@ def _run(ctx, proofs_ok, tier, scratch):
         c_, p_, r_, o_, m_ = abreaks[0]
         breaks = [(c_, [["alias-pre", p_], ["alias-ops", r_]], [None, o_], [None, m_])]
         n_break = len(abreaks)
-    if not failing and not v_diffs and not abad and (breaks or not proofs_ok):
+    if not failing and not v_diffs and not abad and not vw_bad and not hp_bad and (breaks or not proofs_ok):
         b = breaks[0] if breaks else (None, None, None, None)
         i = first_diff(b[2][1], b[3][1]) if breaks else None
         ctx.violation({"what": "proof obligation or model/code correspondence broken; the list-of-dicts oracle accepted "
@@ -1638,6 +2296,14 @@ def replay(rp):
     scratch = os.path.join(common.SCRATCH_ROOT, f"lv-{os.getpid()}")
     os.makedirs(scratch, exist_ok=True)
     try:
+        if "viewer_ops" in rp:
+            _, r_, o_, _ = quiet(viewer_world, rp["viewer_ops"])
+            print(json.dumps({"differences": viewer_world_diff(r_, o_), "violates": r_ != o_}))
+            return 1 if r_ != o_ else 0
+        if rp.get("helpers"):
+            d = quiet(helpers_case, rp["ctor"], rp["mutation"], scratch)
+            print(json.dumps({"differences": d[:5]}, default=str))
+            return 1 if d else 0
         if "viewer_stmts" in rp:
             d = viewer_case([tuple(s) for s in rp["viewer_stmts"]], scratch)
             print(json.dumps({"differences": d}))
